@@ -650,25 +650,54 @@ func IngressPolicyIntersection(p *core.Program, r *core.Report, rule string) {
 		ainfo := af.Pkg.TypesInfo
 		var keys []string
 		resolves := false
-		ast.Inspect(af.Decl.Body, func(n ast.Node) bool {
-			if cl, ok := n.(*ast.CompositeLit); ok {
-				if nt := core.NamedOf(ainfo.TypeOf(cl)); nt != nil && nt.Obj().Name() == "Pod" {
-					for _, el := range cl.Elts {
-						if kv, isKV := el.(*ast.KeyValueExpr); isKV {
-							keys = append(keys, core.ExprStr(kv.Key))
+		collect := func(fd *core.FuncDecl) {
+			finfo := fd.Pkg.TypesInfo
+			ast.Inspect(fd.Decl.Body, func(n ast.Node) bool {
+				if cl, ok := n.(*ast.CompositeLit); ok {
+					if nt := core.NamedOf(finfo.TypeOf(cl)); nt != nil && nt.Obj().Name() == "Pod" {
+						for _, el := range cl.Elts {
+							if kv, isKV := el.(*ast.KeyValueExpr); isKV {
+								keys = append(keys, core.ExprStr(kv.Key))
+							}
 						}
 					}
 				}
-			}
+				return true
+			})
+		}
+		collect(af)
+		ast.Inspect(af.Decl.Body, func(n ast.Node) bool {
 			if c, ok := n.(*ast.CallExpr); ok {
-				if fn := core.Callee(ainfo, c); fn != nil && fn.Name() == "resolveSingleMissingNamespace" {
-					resolves = true
+				if fn := core.Callee(ainfo, c); fn != nil {
+					if fn.Name() == "resolveSingleMissingNamespace" {
+						resolves = true
+					}
+					// the pod may be built by a constructor of package k8s
+					if cfd := p.ByObj[fn]; cfd != nil && cfd.Pkg.PkgPath == core.PkgK8s {
+						collect(cfd)
+					}
 				}
 			}
 			return true
 		})
 		sort.Strings(keys)
-		r.Check(strings.Join(keys, ",") == "FakePod,Name,Namespace" && resolves, rule, af.Key()+": the fake pod has no labels, owner or ports and its namespace is a default namespace object", p.Pos(af.Decl.Pos()), strings.Join(keys, ","), "the fake ingress-controller pod now carries "+strings.Join(keys, ",")+" (it must be an arbitrary unlabeled pod of an unknown namespace)")
+		allowed := map[string]bool{"FakePod": true, "Name": true, "Namespace": true, "IngressExposureData": true, "EgressExposureData": true}
+		need := map[string]bool{"FakePod": false, "Name": false, "Namespace": false}
+		okKeys := true
+		for _, k := range keys {
+			if !allowed[k] {
+				okKeys = false
+			}
+			if _, isNeed := need[k]; isNeed {
+				need[k] = true
+			}
+		}
+		for _, v := range need {
+			if !v {
+				okKeys = false
+			}
+		}
+		r.Check(okKeys && resolves, rule, af.Key()+": the fake pod has no labels, owner or ports and its namespace is a default namespace object", p.Pos(af.Decl.Pos()), strings.Join(keys, ","), "the fake ingress-controller pod is built with the fields "+strings.Join(keys, ",")+" (it must be an arbitrary unlabeled pod of an unknown namespace: name, namespace, the fake flag and empty exposure data only)")
 	} else {
 		r.Lost(rule, "(*PolicyEngine).AddPodByNameAndNamespace")
 	}
